@@ -303,6 +303,7 @@ int main(int argc, char** argv) {
         }
         for (int i = 0; i < 19; ++i) g_secret[i] = g_rand[i];
         g_secret[18] &= 0x3F;
+        g_ntab = 0;   /* the normalisations recorded during the search are of no use to the scanned passes */
     }
     for (int i = 0; i < 32; ++i) g_mask[i] = (unsigned char)(0xC1 + 5 * i);
     /* a supported and an unsupported seed with the same secret, through the library itself */
